@@ -178,7 +178,7 @@ pub proof fn lemma_dec_val_shift(s: Seq<u8>, t: Seq<u8>, off: int, a: int, b: in
     let ghost i0 = *index as int;
     let ghost sig0 = *significant;
     proof { lemma_digits_end_bounds(s, i0); lemma_pow10_19(); lemma_pow10_table(); }
-//@after /let \(frac, ndigits\) = unsafe \{ simd_str2int\(&data\[\*index\.\.\], need as usize\) \};/
+//@after /let \(frac, ndigits\) =/
             proof {
                 let t = data@.subrange(i0, data@.len() as int);
                 lemma_dec_val_shift(s, t, i0, 0, ndigits as int);
@@ -206,7 +206,7 @@ pub proof fn lemma_dec_val_shift(s: Seq<u8>, t: Seq<u8>, off: int, a: int, b: in
                     *significant == sig0 * pow10((*index - i0) as nat) + dec_val(s, i0, *index as int),
                     0 <= sig0 < pow10((17 - need0) as nat),
                 decreases s.len() - *index,
-//@before /^\s+\*significant = \*significant \* 10 \+ digit!\(data, \*index\);/
+//@before /^\s+\*significant = \*significant / #2
                 proof {
                     let k = (*index - i0) as nat;
                     lemma_dec_val_bound(s, i0, *index as int);
@@ -299,7 +299,7 @@ fn neg_f64(x: f64) -> (r: f64) { -x }
                         invariant q1 <= *index <= s.len(), data@ == s,
                             forall|j: int| q1 <= j < *index ==> is_digit(#[trigger] s[j]),
                         decreases s.len() - *index,
-//@before /return Ok\(ParserNumber::Float\(if negative \{ -0\.0 \} else \{ 0\.0 \}\)\);/ #1
+//@before /return Ok\(ParserNumber::Float\(/ #2
                     proof { lemma_digits_run(s, q1, *index - q1); lemma_digits_end_bounds(s, *index as int); }
 //@before /check_digit!\(data, \*index\);/ #3
                 let ghost q2 = *index as int;
@@ -308,7 +308,7 @@ fn neg_f64(x: f64) -> (r: f64) { -x }
                     invariant q2 <= *index <= s.len(), data@ == s,
                         forall|j: int| q2 <= j < *index ==> is_digit(#[trigger] s[j]),
                     decreases s.len() - *index,
-//@before /return Ok\(ParserNumber::Float\(if negative \{ -0\.0 \} else \{ 0\.0 \}\)\);/ #3
+//@before /return Ok\(ParserNumber::Float\(/ #4
                 proof { lemma_digits_run(s, q2, *index - q2); lemma_digits_end_bounds(s, *index as int); }
 //@loop 4
             invariant p <= *index <= s.len(), data@ == s, digit_start == p,
@@ -323,7 +323,7 @@ fn neg_f64(x: f64) -> (r: f64) { -x }
                     lemma_pow10_mono((*index - p) as nat, 18);
                 }
             }
-//@before /let mut digits_cnt = \*index - digit_start;/
+//@before /let mut digits_cnt =/
         proof { lemma_digits_run(s, p, *index - p); lemma_digits_end_bounds(s, *index as int); }
         let ghost de = *index as int;
 //@loop 5
@@ -332,7 +332,7 @@ fn neg_f64(x: f64) -> (r: f64) { -x }
                     de - p > 19,
                     significant == dec_val(s, p, *index as int),
                 decreases 19 - digits_cnt,
-//@before /significant = significant \* 10 \+ digit!\(data, \*index\);/
+//@before /^\s+significant = significant \*/
                 proof {
                     lemma_dec_val_bound(s, p, *index as int);
                     lemma_pow10_19();
